@@ -7,16 +7,16 @@ CONSTANTS
   MaxClients0 = 3
   ServerAddrs = 1
   TokenSingleUse = TRUE
-  MaxSteps = 7
+  MaxSteps = 10
   Addrs = {1, 2, 3}
   Dts = {250}
   CraftToks = {"TA", "TV2"}
   MaxPresent = 2
-  Calls = {"exchange", "disconnect"}
+  Calls = {"exchange", "disconnect", "leave"}
   PropsOn <- P_HS
   Export = TRUE
   ExportAll = FALSE
-  ExportOneIn = 60
+  ExportOneIn = 1
 INVARIANT NoFlag
 INVARIANT ExportInv
 VIEW View
